@@ -160,6 +160,11 @@ func VH_C07_recoverNotDirectlyDeferred() {
 // ---- C12: an evaluation aborted by a panic leaves the bookkeeping as a fresh interpreter has it ----
 
 func vhProbeAfterAbort(run *Run) {
+	// probe 0: a function with a deferred call that neither panics nor recovers returns normally
+	ran0 := 0
+	probe0 := vhFunction(vhDeferStmt(vhInterp(run, func(env *Env) { ran0++ })), vhPlainStmt(func(env *Env) { ran0++ }))
+	rec0 := vhRunRecover(func() { probe0(&Env{Run: run}) })
+	vhAssert(rec0 == nil && ran0 == 2, "a later function with a deferred call returns normally")
 	// probe 1: recover() outside any deferred call returns nothing and changes nothing observable
 	funenv := &Env{Run: run}
 	ran := 0
@@ -216,6 +221,32 @@ func VH_C12_abortedByPanic() {
 	vhReach("end")
 }
 
+// an evaluation through Interp.RunExpr that panics: the call stack pointer is restored
+func vhModelPrepareEnv(ir *Interp) *Env { return ir.env }
+
+func VH_C12_runExprAborted() {
+	c := vhComp()
+	run := &Run{IrGlobals: c.IrGlobals}
+	top := &Env{Run: run}
+	ir := &Interp{Comp: c, env: top}
+	caller := &Env{Run: run}
+	stack := []*Env{nil, caller}
+	run.CurrEnv = stack[vhPick("evaluation started from interpreted code", 2)]
+	before := run.CurrEnv
+	panics := vhBool("the expression panics")
+	var zero int
+	e := exprFun(vhTypeOf(zero), func(env *Env) int {
+		if panics {
+			panic("abort")
+		}
+		return 1
+	})
+	rec := vhRunRecover(func() { ir.RunExpr(e) })
+	vhAssert((rec != nil) == panics, "the panic aborts the evaluation")
+	vhAssert(run.CurrEnv == before, "the current call stack is restored on return and on panic")
+	vhReach("end")
+}
+
 // pushDefer / popDefer restore the bookkeeping for every prior state
 func VH_C12_pushPopDefer() {
 	run := vhNewRun()
@@ -234,5 +265,58 @@ func VH_C12_pushPopDefer() {
 	if panicking {
 		vhAssert(run.PanicFun == fun, "the panicking function is recorded")
 	}
+	vhReach("end")
+}
+
+func VH_C07_pushPopDefer() { VH_C12_pushPopDefer() }
+
+// vhInterpFn: an interpreted function (own frame, own executor run) with optional deferred calls
+func vhInterpFn(run *Run, defers []func(), body func(env *Env)) func() {
+	list := make([]Stmt, 0, len(defers)+1)
+	for _, d := range defers {
+		list = append(list, vhDeferStmt(d))
+	}
+	list = append(list, vhPlainStmt(body))
+	code := &Code{List: list, DebugPos: make([]token.Pos, len(list)), WithDefers: len(defers) > 0}
+	f := code.Exec()
+	return func() { f(&Env{Run: run}) }
+}
+
+// f panics; its deferred function d calls g; g has its own deferred function r that calls recover().
+// r is a deferred function of g, and g is not panicking: recover() must return nil and f's panic escapes.
+func VH_C07_recoverInDeferOfCalledFunction()         { vhRecoverInDeferOfCalledFunction(false) }
+func VH_C07_recoverInDeferOfCalledFunction_nested() { vhRecoverInDeferOfCalledFunction(true) }
+
+func vhRecoverInDeferOfCalledFunction(gPanics bool) {
+	run := vhNewRun()
+	r := vhInterp(run, func(env *Env) { callRecover(xr.ValueOf(env)) })
+	g := vhInterpFn(run, []func(){r}, func(env *Env) {
+		if gPanics {
+			panic("inner")
+		}
+	})
+	d := vhInterp(run, func(env *Env) { g() })
+	f := vhInterpFn(run, []func(){d}, func(env *Env) { panic("outer") })
+	rec := vhRunRecover(f)
+	// compiled Go: r recovers g's own panic if there is one; the panic of f is never recovered by r
+	vhAssert(rec == interface{}("outer"), "the outer panic is not stopped by recover() in a deferred function of another function")
+	vhReach("end")
+}
+
+// a deferred call to a compiled function (no interpreted body) must not make the next interpreted call look deferred
+func VH_C07_compiledDeferredCall() {
+	run := vhNewRun()
+	unlocked := 0
+	compiled := func() { unlocked++ } // like mu.Unlock: runs no interpreted code
+	h := vhInterpFn(run, []func(){compiled}, func(env *Env) {})
+	helper := vhInterp(run, func(env *Env) { callRecover(xr.ValueOf(env)) })
+	d := vhInterp(run, func(env *Env) {
+		h()
+		helper() // recover() in a helper called by the deferred function: must be ignored
+	})
+	f := vhInterpFn(run, []func(){d}, func(env *Env) { panic("outer") })
+	rec := vhRunRecover(f)
+	vhAssert(unlocked == 1, "the compiled deferred call runs once")
+	vhAssert(rec == interface{}("outer"), "recover() in a helper is ignored also after a compiled deferred call")
 	vhReach("end")
 }
